@@ -197,12 +197,22 @@ type cp interface {
 	Down()
 	Close()
 	ReceivePacket([]byte) error
+	VerifLastID() uint8 // hook: identifier of the outstanding Configure-Request
 }
 
-// goodReq is a Configure-Request every automaton acknowledges
-func toState(m cp, state string, goodReq []byte) bool {
+// toState drives a fresh automaton into `state` with `wantID` as the identifier of its outstanding
+// Configure-Request (each matched empty Configure-Nak in Req-Sent makes it send the next request).
+// goodReq is a Configure-Request every automaton acknowledges.
+func toState(m cp, state string, wantID int, goodReq []byte) bool {
 	term := lcpPkt(5, 3, nil)
-	ack := lcpPkt(2, 1, nil)
+	reqSent := func() {
+		m.Open()
+		m.Up()
+		for i := 0; i < 300 && int(m.VerifLastID()) != wantID; i++ {
+			m.ReceivePacket(lcpPkt(3, m.VerifLastID(), nil))
+		}
+	}
+	ack := func() { m.ReceivePacket(lcpPkt(2, m.VerifLastID(), nil)) }
 	switch state {
 	case "Initial":
 	case "Starting":
@@ -210,49 +220,45 @@ func toState(m cp, state string, goodReq []byte) bool {
 	case "Closed":
 		m.Up()
 	case "ReqSent":
-		m.Open()
-		m.Up()
+		reqSent()
 	case "AckRcvd":
-		m.Open()
-		m.Up()
-		m.ReceivePacket(ack)
+		reqSent()
+		ack()
 	case "AckSent":
-		m.Open()
-		m.Up()
+		reqSent()
 		m.ReceivePacket(goodReq)
 	case "Opened":
-		m.Open()
-		m.Up()
+		reqSent()
 		m.ReceivePacket(goodReq)
-		m.ReceivePacket(ack)
+		ack()
 	case "Stopped":
-		m.Open()
-		m.Up()
+		reqSent()
 		m.ReceivePacket(term)
 	case "Closing":
-		m.Open()
-		m.Up()
+		reqSent()
 		m.ReceivePacket(goodReq)
-		m.ReceivePacket(ack)
+		ack()
 		m.Close()
 	case "Stopping":
-		m.Open()
-		m.Up()
+		reqSent()
 		m.ReceivePacket(goodReq)
-		m.ReceivePacket(ack)
+		ack()
 		m.ReceivePacket(term)
 	default:
 		return false
 	}
-	return true
+	return int(m.VerifLastID()) == wantID
 }
 
-func lastIDOf(state string) int {
+// idsOf: the identifiers of the outstanding Configure-Request the generator uses in a state
+func idsOf(state string) []int {
 	switch state {
 	case "Initial", "Starting", "Closed":
-		return 0
+		return []int{0} // no request sent yet
+	case "ReqSent", "Opened":
+		return []int{1, 3}
 	}
-	return 1
+	return []int{1}
 }
 
 func stateIdx(s string) int {
@@ -427,8 +433,13 @@ func (r *run) Do(op string) string {
 		var ok bool
 		cfg := pppoe.DefaultAuthConfig()
 		proto := uint16(pppoe.ProtocolPAP)
+		nStart := 1
 		if f[0] == "chap" {
-			if len(f) != 3 || f[1] != "1" {
+			var aerr error
+			if len(f) != 3 {
+				return "badop"
+			}
+			if nStart, aerr = strconv.Atoi(f[1]); aerr != nil || nStart < 1 || nStart > 255 {
 				return "badop"
 			}
 			b, ok = arg(2)
@@ -442,10 +453,17 @@ func (r *run) Do(op string) string {
 		}
 		sb := &sentBuf{}
 		a := pppoe.NewAuthenticator(cfg, nil, sb.send, nop)
-		if err := a.Start(); err != nil {
-			return "harness-err"
+		for i := 0; i < nStart; i++ { // every Start sends a fresh challenge with the next identifier
+			if err := a.Start(); err != nil {
+				return "harness-err"
+			}
 		}
-		sb.drain()
+		if ch := sb.drain(); f[0] == "chap" {
+			// the LIVE challenge identifier, as the peer sees it on the wire
+			if len(ch) != nStart || len(ch[nStart-1]) < 2 || int(ch[nStart-1][1]) != nStart {
+				return "harness-state chap-id"
+			}
+		}
 		if err := a.ReceivePacket(proto, b); err != nil {
 			return "err"
 		}
@@ -457,7 +475,8 @@ func (r *run) Do(op string) string {
 
 	case "lcp", "ipcp", "ipv6cp":
 		want := map[string]int{"lcp": 5, "ipcp": 4, "ipv6cp": 5}[f[0]]
-		if len(f) != want || stateIdx(f[1]) < 0 || f[2] != strconv.Itoa(lastIDOf(f[1])) {
+		wantID, aerr := strconv.Atoi(f[2])
+		if len(f) != want || stateIdx(f[1]) < 0 || aerr != nil || wantID < 0 || wantID > 255 {
 			return "badop"
 		}
 		b, ok := arg(want - 1)
@@ -506,9 +525,10 @@ func (r *run) Do(op string) string {
 			maskType = pppoe.IPV6CPOptInterfaceID
 		}
 		defer m.Down() // stops the restart timer
-		toState(m, f[1], goodReq)
-		if getState() != stateIdx(f[1]) {
-			return "harness-state " + fsmNames[getState()]
+		// the LIVE identifier is read back through the hook: the op is only meaningful if the automaton
+		// really is in that state with that outstanding identifier
+		if !toState(m, f[1], wantID, goodReq) || getState() != stateIdx(f[1]) {
+			return fmt.Sprintf("harness-state %s %d", fsmNames[getState()], m.VerifLastID())
 		}
 		sb.drain()
 		if err := m.ReceivePacket(b); err != nil {
@@ -1270,6 +1290,61 @@ func radiusSeeds(secret string) (attrs []seed, dgrams []seed) {
 	return
 }
 
+// matchedCP: Configure-Ack/Nak/Reject carrying the identifier of the outstanding Configure-Request (so the
+// handler does NOT drop them and walks the options): every option type the protocol knows and some it does
+// not x every option length 2..8 x value bytes at protocol constants, alone and next to a well-formed option.
+func matchedCP(proto string, id int) [][]byte {
+	types := map[string][]byte{
+		"lcp":    {1, 3, 5, 7, 8, 0, 2, 4, 99},
+		"ipcp":   {1, 2, 3, 129, 131, 0, 99},
+		"ipv6cp": {1, 2, 0, 99},
+	}[proto]
+	tmpls := [][]byte{{0xc0, 0x23}, {0xc2, 0x23}, {0x80, 0x21}, {0x80, 0x57}, {0xc0, 0x21}, {0x00, 0x21}, {0x00, 0x00}, {0xff, 0xff},
+		{0x05, 0xd4}, {0x00, 0x40}, {0x0a, 0x0b, 0x0c, 0x0d}, {10, 0, 0, 2}, {8, 8, 8, 8}, {1, 2, 3, 4, 5, 6, 7, 8}}
+	pad := []byte{0x05, 0x80, 0x00, 0x01, 0x02, 0x03}
+	good := map[string][]byte{"lcp": {1, 4, 0x05, 0xd4}, "ipcp": {3, 6, 10, 0, 0, 2}, "ipv6cp": {1, 10, 9, 9, 9, 9, 9, 9, 9, 9}}[proto]
+	seen := map[string]bool{}
+	var out [][]byte
+	add := func(b []byte) {
+		if !seen[string(b)] {
+			seen[string(b)] = true
+			out = append(out, b)
+		}
+	}
+	for _, code := range []byte{3, 4, 2} {
+		for _, t := range types {
+			for L := 2; L <= 8; L++ {
+				for _, tm := range tmpls {
+					opt := append([]byte{t, byte(L)}, append(append([]byte(nil), tm...), pad...)[:L-2]...)
+					add(lcpPkt(code, byte(id), opt))
+					if code != 2 && (L <= 4 || tm[0] >= 0x80) {
+						add(lcpPkt(code, byte(id), cat(good, opt)))
+						add(lcpPkt(code, byte(id), cat(opt, good)))
+					}
+				}
+			}
+		}
+	}
+	return out
+}
+
+// matchedAuth: PAP requests and CHAP responses (identifier = the outstanding challenge) with every small
+// size byte against every body length
+func matchedAuth(code byte, id int, chap bool) [][]byte {
+	var out [][]byte
+	for _, v := range []int{0, 1, 2, 3, 4, 5, 8, 16, 255} {
+		for n := 0; n <= 7; n++ {
+			body := append([]byte{byte(v)}, bytes.Repeat([]byte{0x61}, n)...)
+			if !chap && n >= v && n > 0 { // PAP: put a password length after the peer id
+				body[min(1+v, len(body)-1)] = byte(n - v)
+			}
+			out = append(out, cat([]byte{code, byte(id)}, u16(4+len(body)), body))
+		}
+	}
+	out = append(out, cat([]byte{code, byte(id)}, u16(4)))
+	return out
+}
+
 func (comp) Gen(r *rand.Rand, tier string, emit func([]string)) {
 	thorough := tier == "thorough"
 	maxRand, nRand := 256, 60
@@ -1332,8 +1407,20 @@ func (comp) Gen(r *rand.Rand, tier string, emit func([]string)) {
 	pap := papSeeds()
 	batch("srvpap", all(pap, headsOf(pap, 4), 3))
 	batch("pap", all(pap, headsOf(pap, 4), 3))
+	batch("pap", matchedAuth(1, 1, false))
+	batch("srvpap", matchedAuth(1, 1, false))
 	chap := chapSeeds()
 	batch("chap 1", all(chap, headsOf(chap, 4), 3))
+	// CHAP responses keyed on the LIVE challenge identifier (1 after one challenge, 3 after three)
+	for _, id := range []int{1, 3} {
+		in := matchedAuth(2, id, true)
+		for _, s := range chap[:2] {
+			m := append([]byte(nil), s.b...)
+			m[1] = byte(id)
+			in = append(in, mutants(r, seed{m, s.lf}, false)...)
+		}
+		batch(fmt.Sprintf("chap %d", id), in)
+	}
 
 	// the three automata, every state
 	for si, st := range fsmNames {
@@ -1351,8 +1438,30 @@ func (comp) Gen(r *rand.Rand, tier string, emit func([]string)) {
 			}
 		}
 		in = append(in, randoms(r, nRand/2, maxRand, headsOf(lcpPkts, 4))...)
-		pre := fmt.Sprintf("%s %d", st, lastIDOf(st))
+		pre := fmt.Sprintf("%s %d", st, idsOf(st)[0])
 		batch(fmt.Sprintf("lcp %s %08x", pre, lcpMagic), in)
+		// packets that MATCH the outstanding identifier: the handlers walk their options instead of dropping them
+		for k, id := range idsOf(st) {
+			for _, proto := range []string{"lcp", "ipcp", "ipv6cp"} {
+				var mi [][]byte
+				for j, b := range matchedCP(proto, id) {
+					// quick: everything in Req-Sent (id 1) and Opened (id 3), a rotating sixth elsewhere
+					full := thorough || (st == "ReqSent" && k == 0) || (st == "Opened" && k == 1)
+					if full || (j+si)%6 == 0 {
+						mi = append(mi, b)
+					}
+				}
+				p2 := fmt.Sprintf("%s %d", st, id)
+				switch proto {
+				case "lcp":
+					batch(fmt.Sprintf("lcp %s %08x", p2, lcpMagic), mi)
+				case "ipcp":
+					batch("ipcp "+p2, mi)
+				default:
+					batch(fmt.Sprintf("ipv6cp %s %016x", p2, v6LocalID), mi)
+				}
+			}
+		}
 		var in2 [][]byte
 		for i, s := range lcpPkts {
 			if s.b[0] > 4 && !thorough && i%3 != 0 {
